@@ -37,6 +37,14 @@ Definition ref_delete (l : list bytes) (b e : Z) : list bytes * Z :=
 Definition ref_put (l : list bytes) (b e : Z) (t : list bytes) : list bytes * Z :=
   let l' := splice (Z.to_nat e) (Z.to_nat e) t l in
   (l', clampz (Z.of_nat (length l')) (e + Z.of_nat (length t) - 1)).
+(* read: like put, but on the empty buffer the text goes to the top whatever the address, and the current line is
+   not clamped to the last line *)
+Definition ref_read (l : list bytes) (b e : Z) (t : list bytes) : list bytes * Z :=
+  let pos := if Z.of_nat (length l) =? 0 then 0 else e in
+  (splice (Z.to_nat pos) (Z.to_nat pos) t l, Z.max 0 (e + Z.of_nat (length t) - 1)).
+(* what yank and delete store: the addressed lines, each with its newline *)
+Definition ref_range (l : list bytes) (b e : Z) : bytes :=
+  join_lines (firstn (Z.to_nat (e - b)) (skipn (Z.to_nat b) l)).
 Definition ref_print (l : list bytes) (b e : Z) : list bytes * Z :=
   (firstn (Z.to_nat (e - b)) (skipn (Z.to_nat b) l), Z.max b (e - 1)).
 
